@@ -96,6 +96,10 @@ for i, gs in enumerate(shards):
     files["s%02d" % i] = t
     shard_groups["s%02d" % i] = len(gs)
 results = ck.coq_cases_parallel(files, timeout=6000)
+# a shard that did not finish (e.g. killed under memory pressure) is retried once, alone
+for name in [n for n, (rc, out) in results.items() if rc != 0]:
+    ck.log("retrying shard " + name)
+    results[name] = ck.coq_cases(name, files[name], timeout=9000)
 ck.log("coq evaluation done")
 
 CLAUSE_TEXT = {
